@@ -7,6 +7,7 @@ package gldap
 // replayed against the real build (values come from a JSON file).
 
 import (
+	"crypto/x509"
 	"bytes"
 	"crypto/tls"
 	"encoding/base64"
@@ -453,6 +454,8 @@ func vSchedFork(level int)            {}
 func vSchedFilter(suffix string)      {}
 func vPreemptBudget(n int)            {}
 func vTrack(p interface{}, name string) {}
+func vTrackElems(s interface{}, name string) {}
+func vCertPoolSize(p *x509.CertPool) int      { return -1 }
 
 // Run-level environment (listener / accept scripts): engine only.
 func vEnvSet(key string, val bool)              {}
